@@ -5,6 +5,7 @@ import (
 	"math/big"
 	"runtime"
 	"sync"
+	"sync/atomic"
 	"time"
 
 	"github.com/youchainhq/go-youchain/common"
@@ -45,6 +46,11 @@ type forkChain struct {
 	signer types.Signer
 	serial uint64
 	mined  map[common.Hash]bool // every transaction included in any block ever built (any branch)
+
+	stateAtCalls int64 // atomic: StateAt calls made by the pool (exactly one per executed reset)
+	gateMu       sync.Mutex
+	gate         chan struct{} // while non-nil the pool's StateAt calls wait until it is closed
+	entered      chan struct{} // closed when the first call starts waiting
 }
 
 func newForkChain(genesis map[common.Address]*big.Int, gasLimit uint64, signer types.Signer) (*forkChain, error) {
@@ -92,9 +98,49 @@ func (fc *forkChain) GetBlock(hash common.Hash, number uint64) *types.Block {
 	return nil
 }
 
+// StateAt is what the pool calls (once per reset, under pool.mu). The harness can hold it up: the
+// reset in progress then keeps the reorg scheduler busy, so that every head event posted meanwhile
+// has to wait and be merged by the scheduler - deterministically, without any timing assumption.
 func (fc *forkChain) StateAt(root, valRoot, stakingRoot common.Hash) (*state.StateDB, error) {
+	atomic.AddInt64(&fc.stateAtCalls, 1)
+	fc.gateMu.Lock()
+	g := fc.gate
+	if g != nil && fc.entered != nil {
+		close(fc.entered)
+		fc.entered = nil
+	}
+	fc.gateMu.Unlock()
+	if g != nil {
+		<-g
+	}
+	return fc.stateAt(root, valRoot, stakingRoot)
+}
+
+func (fc *forkChain) stateAt(root, valRoot, stakingRoot common.Hash) (*state.StateDB, error) {
 	return state.New(root, valRoot, stakingRoot, fc.sdb)
 }
+
+// hold makes the pool's next StateAt calls wait; the returned channel is closed when the first
+// one has arrived (the pool is then inside reset(), holding its lock).
+func (fc *forkChain) hold() <-chan struct{} {
+	fc.gateMu.Lock()
+	defer fc.gateMu.Unlock()
+	fc.gate = make(chan struct{})
+	e := make(chan struct{})
+	fc.entered = e
+	return e
+}
+
+func (fc *forkChain) release() {
+	fc.gateMu.Lock()
+	defer fc.gateMu.Unlock()
+	if fc.gate != nil {
+		close(fc.gate)
+		fc.gate, fc.entered = nil, nil
+	}
+}
+
+func (fc *forkChain) poolResets() int64 { return atomic.LoadInt64(&fc.stateAtCalls) }
 
 func (fc *forkChain) Processor() core.Processor { return fc.proc }
 
@@ -208,7 +254,7 @@ func (fc *forkChain) minedSomewhere(h common.Hash) bool {
 // (guards the harness against its own mistakes).
 func (fc *forkChain) selfCheck(bi *blockInfo) error {
 	h := bi.block.Header()
-	st, err := fc.StateAt(h.Root, h.ValRoot, h.StakingRoot)
+	st, err := fc.stateAt(h.Root, h.ValRoot, h.StakingRoot)
 	if err != nil {
 		return err
 	}
